@@ -34,7 +34,11 @@ def run_c04(tier, seed, replay=None):
     r = core.rng(seed, "C04")
     feats = [gen.Feats(fancy=False, named=True, flags=True), gen.Feats(fancy=False, wordb=True), gen.Feats(fancy=False, nullable_star=True, named=True)]
     pats, trees = [], {}
-    corpus = ["(?:ab|a)\\B", "(?:Mr\\.|Mr)\\b", "(\\b(?:ab|a))b", "\\b", "\\B", "a*", "(a)|b", "(?i)a\\b", "\\ba*?\\b", "(?m)^\\b", "x*\\b", "(?:(\\b))*", "(?<n1>a)\\b|b", "(a){0}b", "(a){0}(b)", "a(?:(b)|c){0}"]
+    corpus = ["(?:ab|a)\\B", "(?:Mr\\.|Mr)\\b", "(\\b(?:ab|a))b", "\\b", "\\B", "a*", "(a)|b", "(?i)a\\b", "\\ba*?\\b", "(?m)^\\b", "x*\\b", "(?:(\\b))*", "(?<n1>a)\\b|b", "(a){0}b", "(a){0}(b)", "a(?:(b)|c){0}",
+              # a quantified group whose whole content is another quantifier (what to_str must keep wrapped)
+              "(?:a{2})?b", "(?:a{2})??a", "(a)(?:b{1})?c", "(?i:a{2})?b", "(?:é{2})?-", "(?:a{1,2})?b", "(?:a*)?b", "(?:a+)??b", "(?:a{2})*b", "(?:a?){2}b", "(?:(?:a{2})?b)+",
+              # line anchors and word boundaries the VM has to execute itself
+              "(?m)\\ba(?:$|b)", "(?m)\\w+?$\\b", "(?m)a*$\\B", "(?m)(?:^|a)\\bb", "(?m)\\b(?:a|^)b", "\\ba(?:$|b)", "(?s)\\b.(?:$|b)"]
     if replay and "pattern" in replay:
         pats = [replay["pattern"]]
     else:
@@ -47,7 +51,7 @@ def run_c04(tier, seed, replay=None):
             if p not in trees and len(p) < 50:
                 trees[p] = t
                 pats.append(p)
-    texts = gen.texts(2, ["a", "b", "-", "é"]) + ["ab", "ab a", "a-b", "aab", "ba b", "Mr. S", "aé b", "", "abab", "b-"]
+    texts = gen.texts(2, ["a", "b", "-", "é"]) + ["ab", "ab a", "a-b", "aab", "ba b", "Mr. S", "aé b", "", "abab", "b-", "a\nb", "ab\nb", "\na", "b", "ac", "aaa", "éé-", "-"]
     if tier == "thorough":
         texts += gen.texts(3, ["a", "b", "-"])
     lines = ["%s\t%s\t-\t0\t%s" % (hexs(p), hexs(t), PROBES4) for p in pats for t in texts]
